@@ -34,6 +34,7 @@ import (
 )
 
 const maxUnroll = 16
+const maxUnrollOneStmt = 128
 
 // cloneNode makes a deep copy of a syntax tree (positions kept, objects/scopes dropped).
 func cloneNode[T ast.Node](n T) T {
@@ -283,7 +284,13 @@ func (l *Loaded) unrollConstantRanges(pkgs []*packages.Package) []string {
 						continue
 					}
 					cl := l.tableOf(p, rs.X, tables)
-					if cl == nil || len(cl.Elts) == 0 || len(cl.Elts) > maxUnroll || refersToLoop(rs.Body) {
+					// (a one-statement body may run over a long table: the registration of the
+					// message types, one call per row)
+					limit := maxUnroll
+					if len(rs.Body.List) == 1 {
+						limit = maxUnrollOneStmt
+					}
+					if cl == nil || len(cl.Elts) == 0 || len(cl.Elts) > limit || refersToLoop(rs.Body) {
 						continue
 					}
 					at, isArr := cl.Type.(*ast.ArrayType)
@@ -329,10 +336,11 @@ func (l *Loaded) unrollConstantRanges(pkgs []*packages.Package) []string {
 					selectOnly := valId != nil && valId.Name != "_" && rowFields != nil && onlySelected(info, rs.Body, info.Defs[valId])
 					blk := &ast.BlockStmt{Lbrace: rs.Pos(), Rbrace: rs.End()}
 					okAll := true
+					pristine := cloneNode(rs.Body) // (iteration 0 rewrites rs.Body itself)
 					for k, elt := range cl.Elts {
 						body := rs.Body
 						if k > 0 || fromDecl {
-							body = cloneNode(rs.Body)
+							body = cloneNode(pristine)
 						}
 						it := &ast.BlockStmt{Lbrace: body.Lbrace, Rbrace: body.Rbrace}
 						if keyId != nil && keyId.Name != "_" {
